@@ -57,10 +57,13 @@ def props_for(module, kind, fn):
         return list(RANGE.get(short, []))
     if kind == 'degen':
         return ['C08']
+    # new / reset establish the numeric invariant every value, range and degenerate-window clause relies on
+    # (the inductive argument over "every history of next/reset operations"), so they carry those properties too
+    base = list(VALUE.get(short, [])) + list(RANGE.get(short, [])) + ['C08']
     if kind == 'reset':
-        return ['C04']
+        return ['C04'] + base
     if kind == 'new':
-        return ['C11', 'C04']
+        return ['C11', 'C04'] + base
     if kind in ('period', 'default', 'mult'):
         return ['C11']
     if kind == 'lemma':
